@@ -4,6 +4,7 @@ import subprocess
 
 import common
 import progcheck
+import c19_parquet
 
 
 def hashseed_names(run, n):
@@ -208,7 +209,9 @@ def run(run):
         "the drivers are modelled abstractly (Drivers.v) over an arbitrary pass function; that the real simplify_once / lower_once / _fusion_pass are deterministic functions of the plan is observed (names over repetitions, hash seeds, interpreters), not proved",
     ]
     run.rule = ("generated programs (l1/l2 profiles): optimize twice -> same name; optimize(optimize(q)) -> same result; no non-convergence; simplify pass counts bounded; "
-                "names across 4 fresh interpreters with different PYTHONHASHSEED; non-trivial = program with >= 2 steps")
+                "names across 4 fresh interpreters with different PYTHONHASHSEED; non-trivial = program with >= 2 steps; "
+                "projected multi-file parquet reads (2 readers, files of unequal shape, 8 size layouts, calculate_divisions on/off): plan (name, partitions, divisions, graph keys, "
+                "partition lengths) first vs after every history action of the session (same collection and rebuilt query) vs a fresh interpreter; optimize twice; result vs pandas")
     run.proofs("PropC19.v")
     quick = run.tier == "quick"
     progcheck.run_programs(run, {"C19"}, 150 if quick else 3000, profile="l1", own={"C19"}, with_steps=False)
@@ -216,4 +219,5 @@ def run(run):
     pass_counts(run, 150 if quick else 2000)
     join_filter_convergence(run)
     determinism_over_time(run)
+    c19_parquet.parquet_plan_histories(run)
     hashseed_names(run, 40 if quick else 300)
